@@ -86,7 +86,7 @@ def x86_text(mnemonic, operands, v=0):
         elif isinstance(op, MemoryOperand):
             parts.append(x86_mem_text(op, v + i))
         elif isinstance(op, ImmediateOperand):
-            parts.append("$" + _pick(["1", "0x10", "-3"], v))
+            parts.append("$" + _pick(["1", "0", "-3", "0x10"], v))
         elif isinstance(op, IdentifierOperand):
             parts.append(_pick([".L12", "foo", "1f"], v))
         else:
@@ -203,7 +203,7 @@ def a64_text(mnemonic, operands, v=0):
         elif isinstance(op, ImmediateOperand):
             t = op.imd_type
             if t in ("int", "*"):
-                parts.append(_pick(["#1", "#0x10", "12"], v))
+                parts.append(_pick(["#1", "#0", "12", "#0x10"], v))
             elif t == "double":
                 parts.append(_pick(["#1.5", "#2.0e+1", "#0.0"], v))
             elif t == "float":
